@@ -75,6 +75,9 @@ var c13Worker *Worker
 func c13Eval(c *Ctx, cs Case) {
 	ep := cs.S("ep")
 	b := unhx(cs.S("b"))
+	if n := int(cs.I("overlap_nsec")); n > 0 { // generated on the fly: keeps replay and corpus files small
+		b = overlapPE(n, int(cs.I("overlap_size")))
+	}
 	if c13Worker == nil {
 		c13Worker = c.NewWorker(3<<20, "GOMEMLIMIT=2GiB")
 	}
@@ -94,8 +97,8 @@ func c13Eval(c *Ctx, cs Case) {
 		if res.Alloc > budget {
 			fail(fmt.Sprintf("allocated %d bytes for a %d-byte input", res.Alloc, len(b)), "c13.alloc")
 		}
-		if res.Ms > 5000 {
-			fail(fmt.Sprintf("took %d ms for a %d-byte input", res.Ms, len(b)), "")
+		if limit := int64(500 + len(b)/1000); res.Ms > limit { // time proportional to the input: 1 µs per byte + 0.5 s
+			fail(fmt.Sprintf("took %d ms for a %d-byte input (limit %d ms: time must be proportional to the input size)", res.Ms, len(b), limit), "c13.time")
 		}
 	case "panic":
 		fail("panicked", "c13.panic")
@@ -195,6 +198,31 @@ func c13ImageMutants(c *Ctx, img []byte, emit func(class string, b []byte)) {
 	}
 }
 
+// a PE32+ image whose nsec section headers all point at the same `size` bytes
+func overlapPE(nsec, size int) []byte {
+	lf := 0x40
+	optSize := 112 + 8*16
+	secTab := lf + 24 + optSize
+	soh := secTab + 40*nsec
+	img := make([]byte, soh+size)
+	img[0], img[1] = 'M', 'Z'
+	binary.LittleEndian.PutUint32(img[0x3c:], uint32(lf))
+	copy(img[lf:], "PE\x00\x00")
+	binary.LittleEndian.PutUint16(img[lf+4:], 0x8664)
+	binary.LittleEndian.PutUint16(img[lf+6:], uint16(nsec))
+	binary.LittleEndian.PutUint16(img[lf+20:], uint16(optSize))
+	binary.LittleEndian.PutUint16(img[lf+24:], 0x20b)
+	binary.LittleEndian.PutUint32(img[lf+24+60:], uint32(soh))
+	binary.LittleEndian.PutUint32(img[lf+24+108:], 16)
+	for i := 0; i < nsec; i++ {
+		e := secTab + 40*i
+		copy(img[e:], "sec")
+		binary.LittleEndian.PutUint32(img[e+16:], uint32(size))
+		binary.LittleEndian.PutUint32(img[e+20:], uint32(soh))
+	}
+	return img
+}
+
 func c13Gen(c *Ctx) {
 	defer func() {
 		if c13Worker != nil {
@@ -236,6 +264,9 @@ func c13Gen(c *Ctx) {
 	}
 	emit("pe.all", "empty", nil)
 	emit("pe.all", "mz-only", []byte("MZ"))
+	// many section headers that all name the same large range: the hashed stream is nsec x size
+	c13Eval(c, Case{"op": "untrusted", "ep": "pe.all", "class": "many-overlapping-sections", "cert": hx(cert.Raw), "b": "-", "overlap_nsec": int64(c.N(5000, 12000)), "overlap_size": int64(1 << 20)})
+	c13Eval(c, Case{"op": "untrusted", "ep": "pe.all", "class": "many-overlapping-sections", "cert": hx(cert.Raw), "b": "-", "overlap_nsec": int64(200), "overlap_size": int64(64 << 10)})
 	// signatures
 	seeds := p7Seeds(c, false)
 	for i, s := range seeds {
